@@ -487,6 +487,7 @@ class Inliner:
         self.methods = {n.name: n for n in (cls.body if cls is not None else []) if isinstance(n, ast.FunctionDef)}
         self.module_imports = _imports_of(module)
         self.keep = set(keep)
+        self.local: set = set()      # functions defined inside the function being normalised
         self.counter = 0
 
     def callee(self, call: ast.AST):
@@ -575,7 +576,7 @@ class Inliner:
                 # a private `def f(..): return <expr>` handed over as a function object == the lambda
                 for call in [n for n in ast.walk(st) if isinstance(n, ast.Call)]:
                     for k, a in enumerate(call.args):
-                        if isinstance(a, ast.Name) and a.id.startswith("_") and a.id in self.funcs and a.id not in self.keep:
+                        if isinstance(a, ast.Name) and (a.id.startswith("_") or a.id in self.local) and a.id in self.funcs and a.id not in self.keep:
                             fd = self.funcs[a.id]
                             lam = lambda_of(fd)
                             if lam is not None and _imports_of(fd) <= (caller_imports | self.module_imports):
@@ -594,9 +595,10 @@ def normalize(fn: ast.FunctionDef, module: ast.Module, cls: ast.ClassDef | None 
     fn = copy.deepcopy(fn)
     # local `def f(..): return <expr>` used as a function object: treat like a module-level one
     inl = Inliner(module, cls, keep)
-    for st in fn.body:
-        if isinstance(st, ast.FunctionDef) and st.name not in inl.funcs:
+    for st in ast.walk(fn):
+        if isinstance(st, ast.FunctionDef) and st is not fn and st.name not in inl.funcs and bindings(fn).get(st.name, 0) == 0:
             inl.funcs[st.name] = st
+            inl.local.add(st.name)
     body = inl.run(matches_to_ifs(list(fn.body)), _imports_of(fn))
     body = elseify(body)
     body = drop_tail(body, ast.Return)
